@@ -156,10 +156,17 @@ def RunPredicate(text, pred, use_cache=False, mode='script'):
           os.unlink(path)
         STATS['main'] = STATS.get('main', 0) + 1
         if p.returncode != 0:
+          # the last line of the traceback: "sqlite3.OperationalError: <msg>"
+          tail = [l for l in (p.stderr.decode(errors='replace') or
+                              p.stdout.decode(errors='replace')).splitlines()
+                  if l.strip()]
+          last = tail[-1] if tail else ''
+          head, sep, msg = last.partition(': ')
+          known = sep and head.replace('.', '').replace('_', '').isalnum()
           return {'status': 'sqlerror', 'stage': 'logica.py',
-                  'cls': 'ExitCode%d' % p.returncode,
-                  'msg': (p.stderr.decode(errors='replace')[-600:] or
-                          p.stdout.decode(errors='replace')[-600:]),
+                  'cls': (head.split('.')[-1] if known
+                          else 'ExitCode%d' % p.returncode),
+                  'msg': msg if known else '\n'.join(tail[-8:])[-600:],
                   'statements': statements}
         got = p.stdout.decode()
         if got.endswith('\n'):
